@@ -64,6 +64,10 @@ var c16Layout = []string{
 	"public/a+b.txt", "public/a b.txt", "public/c++/", "public/c++/n.txt", "public/c  /", "public/c  /n.txt", "public/q&a=1;x.txt",
 	"public/semi;v=1.txt", "public/semi", "public/wh?at#.txt", "public/wh", "public/tilde~$!'(),@.txt", "public/star*.txt", "public/colon:x.txt", "public/b\\s.txt", "public/b/", "public/b/bs.txt",
 	"a+b.txt", "a b.txt",
+	// two adjacent dots INSIDE a name are not a dot-dot element
+	"public/release..notes.txt", "public/..hidden", "public/2024...json", "public/v1..2/", "public/v1..2/readme.txt", "public/dots../", "public/dots../dd.txt",
+	// a path parameter value in front of a static mount may itself name something under the root
+	"public/acme", "public/1/", "public/1/index.html",
 }
 
 func c16VerifDir() string {
@@ -147,6 +151,17 @@ func c16Setup() {
 			}
 		}
 		c16TreeW = strings.Join(parts, " ")
+		// the listing rule of the oracle relies on these names existing only outside the root
+		for i := range c16Tree {
+			e := &c16Tree[i]
+			b := path.Base(e.rel)
+			if e.dir {
+				b += "/"
+			}
+			if c16OutsideNames[b] && strings.HasPrefix(e.rel, c16RootName+"/") {
+				c16InitErr = fmt.Errorf("layout error: %q under the root has a name reserved for entries outside it", e.rel)
+			}
+		}
 		// The harness process never changes its working directory: configurations whose root is
 		// relative to the working directory run in child processes (c16_child.go).
 	})
@@ -185,6 +200,7 @@ type c16Case struct {
 	SubRoot string `json:"sub_root,omitempty"` // dir variants 13..15: the root given to MustSubFS / Static below os.DirFS(W)
 	Disp    lat1   `json:"disp,omitempty"`     // file variants 4, 5: display name of Attachment / Inline
 	Warm    lat1   `json:"warm,omitempty"`     // a request path served first through the same Echo instance
+	PVal    string `json:"pval,omitempty"`     // dir variants 26..29: value of the path parameter in front of the static mount
 }
 
 func (c *c16Case) faultsW() string {
@@ -426,7 +442,7 @@ func c16Oracle(c *c16Case, mountPrefix, rootRel string, code int, body string, l
 		p := string(c.Path)
 		if strings.HasPrefix(p, mountPrefix+"/") {
 			rel := strings.TrimPrefix(p, mountPrefix+"/")
-			if rel != "" && path.Clean(rel) == rel && !strings.HasPrefix(rel, "..") {
+			if rel != "" && path.Clean(rel) == rel && rel != ".." && !strings.HasPrefix(rel, "../") {
 				full := rel
 				if rootRel != "" {
 					full = rootRel + "/" + rel
@@ -449,11 +465,12 @@ func c16Short(s string) string {
 	return s
 }
 
-var c16MwMountPrefix = []string{"", "", "/static", "", "/files", "/st", ""}
+var c16MwMountPrefix = []string{"", "", "/static", "", "/files", "/st", "", "/a.txt/static"}
 
 // mount 6: two instances of the middleware in one chain (the second one rooted at public/static,
 // inside the first one's root); the model describes the first instance, the second is its `next`
-const c16NumMounts = 7
+// mount 7: group /:tenant/static — the mount is below a path parameter whose value (a.txt) names a file under the root
+const c16NumMounts = 8
 
 // middleware file systems: (recording?, rooted at W?, Root option)
 //
@@ -574,6 +591,8 @@ func c16RunMw(c *c16Case) Result {
 		g.Use(rt.rec, static, rt.tail)
 		g.GET("/ok", c16OK)
 		g.GET("/a.txt", c16OK) // shadowed by the static file of the same name
+	case 7:
+		e.Group("/:tenant/static", rt.rec, static, rt.tail)
 	case 6:
 		second := middleware.StaticWithConfig(middleware.StaticConfig{Root: filepath.Join(c16Root, "static"), Browse: c.Browse, HTML5: c.HTML5})
 		e.Use(rt.rec, static, rt.tail, second)
@@ -689,7 +708,31 @@ func c16RunMw(c *c16Case) Result {
 //	18, 19 e.Static(prefix, "../public" / "dir/../../public") on the default filesystem, working directory = the web root
 //
 // 1 runs in a child process with working directory W, 8..12, 18, 19 in one with working directory W/public.
-const c16NumDirVariants = 20
+//	20 e.Filesystem = MustSubFS(e.Filesystem, <absolute W>); e.Static(prefix, "public")   (second-level derivation from the DEFAULT file system)
+//	21 cwd W: e.Filesystem = MustSubFS(e.Filesystem, "public"); e.Static(prefix, "static")     22 the same with g=/g: g.Static
+//	23 cwd W: e.Filesystem = MustSubFS(MustSubFS(e.Filesystem, "public"), "."); e.StaticFS(prefix, MustSubFS(e.Filesystem, "static"))
+//	24 cwd = the web root: e.Filesystem = MustSubFS(e.Filesystem, ".."); e.Static(prefix, "public")
+//	25 cwd W: e.Filesystem = MustSubFS(e.Filesystem, "public/dir"); e.Static(prefix, "public")  (root public/dir/public; W/public is the look-alike)
+//	26 e.Static("/v/:ver/assets", root)     27 e.Group("/:tenant").Static("/files", root)
+//	28 e.StaticFS("/:a/:b/s", rec(os.DirFS(root)))     29 e.Group("/:tenant").StaticFS("/files", rec(fs.Sub(MapFS, "public")))
+//	   (26..29: the mount is below path parameters; PVal is the first parameter's value and may name a file or directory under the root)
+const c16NumDirVariants = 30
+
+var c16PVals = []string{"1", "acme", "a.txt", "dir", "index.html", "secret.txt", "%2e%2e", "..", "a+b.txt", "static", "v1..2", "..hidden", "x", "dir%2fb.txt", "empty"}
+
+// second-level derivations: roots applied in turn to the default file system, the working directory below W, the resulting root
+var c16Derived = map[int]struct {
+	roots []string
+	cwd   []string
+	rel   string
+}{
+	20: {[]string{"/W", c16RootName}, nil, c16RootName},
+	21: {[]string{c16RootName, "static"}, nil, c16RootName + "/static"},
+	22: {[]string{c16RootName, "static"}, nil, c16RootName + "/static"},
+	23: {[]string{c16RootName, ".", "static"}, nil, c16RootName + "/static"},
+	24: {[]string{"..", c16RootName}, []string{c16RootName}, c16RootName},
+	25: {[]string{c16RootName + "/dir", c16RootName}, nil, c16RootName + "/dir/" + c16RootName},
+}
 
 var c16DotRoots = map[int]string{8: ".", 9: "", 10: "./", 11: "dir/..", 12: ".", 18: "../" + c16RootName, 19: "dir/../../" + c16RootName}
 
@@ -725,6 +768,7 @@ func c16RunDir(c *c16Case) Result {
 	rec := false
 	mount := c.Prefix
 	rootRel, subOpt, fault := c16RootName, "0", 0
+	concrete := "" // the request prefix of a mount whose route pattern has path parameters
 	configPanic := false
 	func() {
 		defer func() {
@@ -780,6 +824,38 @@ func c16RunDir(c *c16Case) Result {
 			fault, rec = c16FSFault(c), true
 			mount = "/g" + c.Prefix
 			e.Group("/g").StaticFS(c.Prefix, c16RecFS{c16FaultFS{c16Sub(c16MapFS, c16RootName), fault}, &names})
+		case 20, 21, 22, 23, 24, 25:
+			d := c16Derived[c.Variant]
+			rootRel = d.rel
+			subOpt = wJoin("2", wStrs(d.cwd), wStrs(d.roots))
+			first := d.roots[0]
+			if first == "/W" {
+				first = c16Work
+			}
+			e.Filesystem = echo.MustSubFS(e.Filesystem, first)
+			last := d.roots[len(d.roots)-1]
+			switch c.Variant {
+			case 22:
+				mount = "/g" + c.Prefix
+				e.Group("/g").Static(c.Prefix, last)
+			case 23:
+				e.Filesystem = echo.MustSubFS(e.Filesystem, d.roots[1])
+				e.StaticFS(c.Prefix, echo.MustSubFS(e.Filesystem, last))
+			default:
+				e.Static(c.Prefix, last)
+			}
+		case 26:
+			mount, concrete = "/v/:ver/assets", "/v/"+c.PVal+"/assets"
+			e.Static(mount, c16Root)
+		case 27:
+			mount, concrete = "/:tenant/files", "/"+c.PVal+"/files"
+			e.Group("/:tenant").Static("/files", c16Root)
+		case 28:
+			mount, concrete, rec = "/:a/:b/s", "/"+c.PVal+"/x/s", true
+			e.StaticFS(mount, c16RecFS{os.DirFS(c16Root), &names})
+		case 29:
+			mount, concrete, rec = "/:tenant/files", "/"+c.PVal+"/files", true
+			e.Group("/:tenant").StaticFS("/files", c16RecFS{c16Sub(c16MapFS, c16RootName), &names})
 		default:
 			e.Static(c.Prefix, c16DotRoots[c.Variant])
 		}
@@ -821,6 +897,10 @@ func c16RunDir(c *c16Case) Result {
 	out, listed := c16Outcome(1, code, body, panicked)
 	tags = append(tags, "out-"+strings.SplitN(out, " ", 2)[0])
 	mp := strings.TrimSuffix(mount, "/")
+	if concrete != "" {
+		mp = concrete
+		tags = append(tags, "dir-mount-below-param")
+	}
 	if fault == 1 || fault == 2 {
 		mp = "\x00" // a file system whose Stat fails is not a working root
 	}
@@ -837,6 +917,9 @@ func c16RunDir(c *c16Case) Result {
 		return Result{Obs: out, Oracle: oracle, Tags: append(tags, "dir-other-route")}
 	}
 	ops := wJoin("5", wBool(rec), c16TreeW, wStrs([]string{c16RootName}), faultsW, subOpt, wStr(rt.star), wStr(rt.urlPath))
+	if strings.HasPrefix(subOpt, "2 ") {
+		tags = append(tags, "dir-derived-default-fs")
+	}
 	obs := out
 	if rec {
 		obs = wJoin(wStrs(names), out)
@@ -952,7 +1035,7 @@ func c16RunFile(c *c16Case) Result {
 	} else {
 		oracle = c16Oracle(c, mp, c16RootName, code, body, listed, false)
 		// a File route naming an existing regular file under the root by its clean path serves its bytes
-		if oracle == "" && c.Variant != 7 && fault != 1 && fault != 2 && string(c.Path) == route && c.RawPath == "" && c.File != "" && path.Clean(c.File) == c.File && !strings.HasPrefix(c.File, "..") {
+		if oracle == "" && c.Variant != 7 && fault != 1 && fault != 2 && string(c.Path) == route && c.RawPath == "" && c.File != "" && path.Clean(c.File) == c.File && c.File != ".." && !strings.HasPrefix(c.File, "../") {
 			if want, ok := c16ByRel[c16RootName+"/"+c.File]; ok && !want.dir && (code != http.StatusOK || body != want.body) {
 				oracle = fmt.Sprintf("existing file %q named by the route %q: status %d, body %q", c.File, route, code, c16Short(body))
 			}
@@ -1072,6 +1155,7 @@ var c16Real = []string{"a.txt", "dir", "sub", "b.txt", "c.txt", "index.html", "s
 var c16RealPaths = []string{"a.txt", "index.html", "dir/b.txt", "dir/index.html", "dir/sub/c.txt", "dir", "dir/", "dir/sub", "dir/sub/", "empty", "empty/",
 	"static", "static/", "static/d.txt", "static/index.html", ".../t.txt", ".../secret", "...", "sp ace.txt", "100%.txt", "pct%2e.txt", "\xc3\xa9.txt",
 	".hidden", "x.y.z", "secret.txt", "dir/public/p.txt", "", "nope.txt", "dir/nope",
+	"release..notes.txt", "..hidden", "2024...json", "v1..2/readme.txt", "v1..2", "dots../dd.txt", "acme", "1", "1/index.html",
 	"a+b.txt", "a b.txt", "c++/n.txt", "c  /n.txt", "c++", "c++/", "q&a=1;x.txt", "semi;v=1.txt", "wh?at#.txt", "tilde~$!'(),@.txt", "star*.txt", "colon:x.txt", "b\\s.txt", "b/bs.txt"}
 var c16Outside = []string{"../a+b.txt", "../a b.txt", "../secret", "../secret.txt", "../index.html", "../publicsecret", "../public.bak/x.txt", "../static/s.txt", "../public/a.txt",
 	"..", "../", "../public.bak", "../static", "../..", "../../../../../../etc/hostname"}
@@ -1215,8 +1299,14 @@ var c16Files = []string{"a.txt", "dir", "dir/b.txt", "nope", "../secret.txt", ".
 func c16DirMount(c *c16Case) string {
 	mount := strings.TrimSuffix(c.Prefix, "/")
 	switch c.Variant {
-	case 4, 5, 12, 15, 17:
+	case 4, 5, 12, 15, 17, 22:
 		mount = "/g" + mount
+	case 26:
+		return "/v/" + c.PVal + "/assets"
+	case 27, 29:
+		return "/" + c.PVal + "/files"
+	case 28:
+		return "/" + c.PVal + "/x/s"
 	}
 	return mount
 }
@@ -1228,6 +1318,7 @@ func c16GenCase(r *rand.Rand, big bool) *c16Case {
 		c.Kind = 1
 		c.Variant = r.Intn(c16NumDirVariants)
 		c.Prefix = c16Pick(r, []string{"/assets", "/assets", "/", "", "/a/b", "/static", "/assets/"})
+		c.PVal = c16Pick(r, c16PVals)
 		switch c.Variant {
 		case 13, 14, 15:
 			c.SubRoot = c16Pick(r, c16SubRoots)
@@ -1321,9 +1412,21 @@ func c16Gen(r *rand.Rand, tier string) []any {
 			}
 		}
 		for v := 0; v < c16NumDirVariants; v++ {
-			dc := &c16Case{Kind: 1, Variant: v, Prefix: "/assets", SubRoot: c16RootName}
-			dc.Path = lat1(c16DirMount(dc) + "/" + rel)
-			out = append(out, dc)
+			for _, pv := range []string{"a.txt", "dir", "acme", "1"} {
+				dc := &c16Case{Kind: 1, Variant: v, Prefix: "/assets", SubRoot: c16RootName, PVal: pv}
+				if v >= 20 && v <= 25 && !strings.HasPrefix(c16RootName+"/"+rel, c16Derived[v].rel+"/") {
+					break // this file is not under the derived root
+				}
+				full := rel
+				if v >= 20 && v <= 25 {
+					full = strings.TrimPrefix(c16RootName+"/"+rel, c16Derived[v].rel+"/")
+				}
+				dc.Path = lat1(c16DirMount(dc) + "/" + full)
+				out = append(out, dc)
+				if v < 26 {
+					break
+				}
+			}
 		}
 		// ... and through the File helpers (the route names the file; the download handler takes it from the request)
 		for _, v := range []int{0, 2, 3, 4, 6, 8, 9} {
@@ -1356,7 +1459,7 @@ func c16Gen(r *rand.Rand, tier string) []any {
 				}
 			}
 			for v := 0; v < c16NumDirVariants; v++ {
-				c := &c16Case{Kind: 1, Variant: v, Prefix: "/assets", SubRoot: c16RootName}
+				c := &c16Case{Kind: 1, Variant: v, Prefix: "/assets", SubRoot: c16RootName, PVal: c16Pick(r, c16PVals)}
 				c16SetTarget(r, c, c16DirMount(c)+"/"+c16Encode(r, o))
 				out = append(out, c)
 			}
@@ -1384,7 +1487,7 @@ func c16Gen(r *rand.Rand, tier string) []any {
 					out = append(out, c)
 					form++
 				}
-				dc := &c16Case{Kind: 1, Variant: []int{2, 3, 13, 6, 0}[form%5], Prefix: "/assets", SubRoot: c16RootName}
+				dc := &c16Case{Kind: 1, Variant: []int{2, 3, 13, 6, 0, 21, 28}[form%7], Prefix: "/assets", SubRoot: c16RootName, PVal: "dir"}
 				c16SetTarget(r, dc, c16DirMount(dc)+"/"+c16Smuggle(o, d, form))
 				dl := &c16Case{Kind: 2, Variant: 7}
 				c16SetTarget(r, dl, "/dl/"+c16Smuggle(o, d, form+1))
@@ -1425,6 +1528,14 @@ func c16Shrink(ci any) []any {
 	}
 	if c.Warm != "" {
 		add(func(d *c16Case) { d.Warm = "" })
+	}
+	if c.PVal != "" && c.PVal != "x" && c.Kind == 1 && c.Variant >= 26 {
+		old := c16DirMount(c)
+		add(func(d *c16Case) {
+			d.PVal = "x"
+			d.Path = lat1(strings.Replace(string(c.Path), old, c16DirMount(d), 1))
+			d.RawPath = lat1(strings.Replace(string(c.RawPath), old, c16DirMount(d), 1))
+		})
 	}
 	if c.Skip != 0 {
 		add(func(d *c16Case) { d.Skip = 0 })
@@ -1476,7 +1587,7 @@ func c16Shrink(ci any) []any {
 func init() {
 	register(&Prop{
 		ID:             "C16",
-		Rule:           "marker tree created at run time under <verif>/.work (root `public` with files, nested directories, a `...` directory, names with space, %, non-ASCII; secrets and look-alike siblings `public.bak`, `publicsecret`, `secret`, `index.html`, `static/` next to the root). Requests: raw targets over the adversarial segment alphabet (.., ., %2e, %2e%2e, %2f, %5c, \\, empty, double encodings, overlong/invalid UTF-8, malformed escapes; dot-dot look-alikes around bytes a sanitiser might drop — NUL, LF, CR, TAB, DEL, VT, space, U+200B, U+FEFF, U+00AD: `.%00.`, `%00..`, `..%00`, `.%2500.` — and names cut short at such a byte) mixed with real names, real paths spliced with one adversarial segment, encoded paths to the outside secrets, IgnoreBase shapes (last element = route base or `.`); URL.Path/RawPath derived as net/http would, or set verbatim. Configurations: Static middleware (StaticWithConfig and the convenience constructor Static(root)) x mount {e.Use, e.Pre, group /static, e.Use + catch-all route, group /files, e.Use + /st*, two instances in one chain} x Skipper {nil, false, true, by path prefix} x injected failures of the file objects {Stat of files, Stat of directories, Readdir} x file system {default http.Dir with absolute / relative / unclean / dot-dot Root (working directory W or the web root), recording http.Dir(root), http.Dir(parent)+Root, http.FS(os.DirFS), http.FS(os.DirFS(parent))+Root, http.FS(MapFS)+Root, http.FS(fs.Sub(MapFS))} x Index x HTML5 x Browse x IgnoreBase; Echo.Static / StaticFS / Group.Static / StaticFS x {absolute, relative root, os.DirFS, fs.Sub(MapFS), custom Echo.Filesystem, MustSubFS} x prefixes; FileFS / File routes of Echo and Group, Context.FileFS / Attachment / Inline (Content-Disposition compared), File on the DEFAULT Echo.Filesystem (os.Open: relative to the working directory, absolute), a download handler taking the name from the request; MustSubFS roots (valid, unclean, climbing, rooted: must panic); fs.FS whose files fail Stat or cannot seek; a third request path may be served first through the same Echo (state carried between requests). The tree also holds names with URL-special bytes (+ & = ; ? # * : ~ $ ! ' ( ) , @ backslash, double space) next to look-alike siblings. Every regular file under the root is also requested by its clean path through every mount. non-trivial = request with dot-dot / percent / backslash / double slash, or a response that is a file or a listing; distinct = distinct model op lines",
+		Rule:           "marker tree created at run time under <verif>/.work (root `public` with files, nested directories, a `...` directory, names with space, %, non-ASCII; secrets and look-alike siblings `public.bak`, `publicsecret`, `secret`, `index.html`, `static/` next to the root). Requests: raw targets over the adversarial segment alphabet (.., ., %2e, %2e%2e, %2f, %5c, \\, empty, double encodings, overlong/invalid UTF-8, malformed escapes; dot-dot look-alikes around bytes a sanitiser might drop — NUL, LF, CR, TAB, DEL, VT, space, U+200B, U+FEFF, U+00AD: `.%00.`, `%00..`, `..%00`, `.%2500.` — and names cut short at such a byte) mixed with real names, real paths spliced with one adversarial segment, encoded paths to the outside secrets, IgnoreBase shapes (last element = route base or `.`); URL.Path/RawPath derived as net/http would, or set verbatim. Configurations: Static middleware (StaticWithConfig and the convenience constructor Static(root)) x mount {e.Use, e.Pre, group /static, e.Use + catch-all route, group /files, e.Use + /st*, two instances in one chain} x Skipper {nil, false, true, by path prefix} x injected failures of the file objects {Stat of files, Stat of directories, Readdir} x file system {default http.Dir with absolute / relative / unclean / dot-dot Root (working directory W or the web root), recording http.Dir(root), http.Dir(parent)+Root, http.FS(os.DirFS), http.FS(os.DirFS(parent))+Root, http.FS(MapFS)+Root, http.FS(fs.Sub(MapFS))} x Index x HTML5 x Browse x IgnoreBase; Echo.Static / StaticFS / Group.Static / StaticFS (also mounted below path parameters — /v/:ver/assets, group /:tenant, /:a/:b/s — with parameter values that name files and directories under the root; also on a DEFAULT Echo.Filesystem that was first narrowed by MustSubFS of itself: absolute, relative, `..`, `.`, three levels) x {absolute, relative root, os.DirFS, fs.Sub(MapFS), custom Echo.Filesystem, MustSubFS} x prefixes; FileFS / File routes of Echo and Group, Context.FileFS / Attachment / Inline (Content-Disposition compared), File on the DEFAULT Echo.Filesystem (os.Open: relative to the working directory, absolute), a download handler taking the name from the request; MustSubFS roots (valid, unclean, climbing, rooted: must panic); fs.FS whose files fail Stat or cannot seek; a third request path may be served first through the same Echo (state carried between requests). The tree also holds names with URL-special bytes (+ & = ; ? # * : ~ $ ! ' ( ) , @ backslash, double space) next to look-alike siblings. Every regular file under the root is also requested by its clean path through every mount. non-trivial = request with dot-dot / percent / backslash / double slash, or a response that is a file or a listing; distinct = distinct model op lines",
 		New:            func() any { return &c16Case{} },
 		Gen:            func(r *rand.Rand, tier string) []any { c16Setup(); return c16Gen(r, tier) },
 		Run:            c16Run,
